@@ -35,6 +35,7 @@ def main():
     ap = argparse.ArgumentParser()
     ap.add_argument('--only')
     ap.add_argument('--all-checks', action='store_true')
+    ap.add_argument('--checks', default=None, help='comma-separated checks to run instead of the own property / all')
     ap.add_argument('--tier', default='quick')
     ap.add_argument('--skip-tests', action='store_true')
     ap.add_argument('--dir', default=None, help='directory of changes (default: /verif/seeded); e.g. /verif/refactors')
@@ -75,7 +76,7 @@ def main():
                 env = dict(os.environ, PYTHONPATH=os.path.join(REPO, 'src'))
                 rc, out = sh('/venv/bin/python %s' % os.path.join(d, 'demo.py'), cwd='/tmp', env=env, timeout=600)
                 rec['demo_rc_with_change'] = rc
-            checks = ALL if args.all_checks else [prop]
+            checks = args.checks.split(',') if args.checks else (ALL if args.all_checks else [prop])
             rec.setdefault('checks', {})
             for c in checks:
                 t = time.time()
